@@ -36,6 +36,20 @@ Definition pstep := step prog noeq pfam fams lru0 sfuel fuel.
 Definition get_ok (p : pstate) (q : qkey) (r : out) : Prop :=
   r = POk (eval prog NF (snap_of (ps_db p)) q) \/ exists e, r = PPanic (PB e).
 
+(* the same, strictly: the only panic of the base model that may unwind a request is an injected
+   fault while some fault switch is on (no cycle panic, no backdate-violation assertion) *)
+Definition get_ok_strict (p0 p : pstate) (q : qkey) (r : out) : Prop :=
+  r = POk (eval prog NF (snap_of (ps_db p)) q) \/
+  (r = PPanic (PB PInjected) /\ exists c, d_pcell (ps_db p0) c <> 0).
+
+Fixpoint results_ok_strict (p : pstate) (os : list op) : Prop :=
+  match os with
+  | [] => True
+  | o :: os' =>
+      (match o with OGet q => get_ok_strict p (fst (pstep p o)) q (snd (pstep p o)) | _ => True end) /\
+      results_ok_strict (fst (pstep p o)) os'
+  end.
+
 Fixpoint results_ok (p : pstate) (os : list op) : Prop :=
   match os with
   | [] => True
@@ -59,6 +73,13 @@ Fixpoint known_class_free (p : pstate) (os : list op) : Prop :=
        end) /\
       known_class_free (fst (pstep p o)) os'
   end.
+Lemma results_ok_of_strict : forall os p, results_ok_strict p os -> results_ok p os.
+Proof.
+  induction os as [|o os IH]; intros p Hs; [exact I|]. destruct Hs as [A B].
+  split; [|apply IH; exact B].
+  destruct o; try exact I. destruct A as [A | [A _]]; [left; exact A | right; eexists; exact A].
+Qed.
+
 End Statement.
 
 (* the durabilities an operation may install: the four levels (durabilities are numbers in the
@@ -80,19 +101,25 @@ Definition persisted_closed (prog : qkey -> body) (pfam : N -> bool) : Prop :=
    - with the extra hypothesis [persisted_closed prog pfam] (C26_results_partial);
    - for every program and pfam when all durabilities are LOW (C26_results_low): the
      dependencies that a snapshot flattens away, to any depth, stay observers (PInv.good).
+   In all three settings the only base panic that can unwind a request is an injected fault
+   ([results_ok_strict]; C26_results_strict): stamps never decrease, also across restores.
    NOT proved: restore of a memo with flattened dependencies when some durability is above LOW.
    Two things are then needed that the LOW case avoids:
    (a) a memo of durability >= MEDIUM may have been validated by the durability short-cut while
        its dependencies' memos stayed at older revisions: the flattened edges are then the
-       dependency's reads at a revision BEFORE the memo's verified_at (in LOW mode a memo of
-       durability LOW was verified by a walk or an execution, so its dependencies are at least
-       as recent — PInv.mo_sync — and a memo of higher durability reads no input at all);
+       dependency's reads at a revision BEFORE the memo's verified_at.  Route: replace PInv.mo_sync
+       by "dependency verified at least as late, OR the window between the two revisions is
+       stable at the memo's level (DurSem.wstable)", and lift such a dependency to its caller's
+       revision at restore time (DurSem.durge_stable gives the same reads);
    (b) when a flattened dependency is executed again after the restore, in a revision later
        than the restored memo's verified_at, and the memo is then validated through its flattened
-       edges, it owes the dependency's new memo "m_dur memo <= m_dur dependency" (trivial when
-       the durability is LOW): this follows from the observer clause only if the new changed_at
-       is old, i.e. bounded by the current stamps of the leaves below — a provenance clause like
-       Core/DInv.v's mo_stamp / ext_mono, over memos that a restored database does not have. *)
+       edges, it owes the dependency's new memo "m_dur memo <= m_dur dependency".  With the stamp
+       provenance that is now part of the invariant (PInv.mo_stamp, inv_ghost, ext_mono) this
+       follows, by induction from the leaves, for every memo that existed when the walk started;
+       what is still missing is the same bound for a memo of a flattened dependency that is
+       stored DURING the walk itself (below a leaf that is re-executed and backdated, after an
+       earlier leaf was validated without a value and then re-executed with a larger stamp): a
+       "durability floor within a revision" for the memos below a memo that is being verified. *)
 Definition C26_results_full_statement : Prop :=
   forall (prog : qkey -> body) (noeq : qkey -> bool) (pfam : N -> bool) (fams : list N)
          (lru0 : N -> lru_state) (rank : qkey -> nat) (NF : nat),
